@@ -31,7 +31,9 @@ func c09T(h uint64, addr string, state string, extra ...labels.Label) *target.Ta
 	ls := labels.Labels{{Name: "__address__", Value: addr}, {Name: "__metrics_path__", Value: "/metrics"}, {Name: "__scheme__", Value: "http"}, {Name: "job", Value: "j"}}
 	ls = append(ls, extra...)
 	sort.Sort(ls)
-	return &target.Target{Hash: h, Labels: ls, Series: int64(h%97 + 1), TotalSeries: int64(h%97 + 5), TargetState: state}
+	// real hashes use all 64 bits
+	big := h*0x9E3779B97F4A7C15 | 1<<63
+	return &target.Target{Hash: big, Labels: ls, Series: int64(h%97 + 1), TotalSeries: int64(h%97 + 5), TargetState: state}
 }
 
 func c09Catalogue() map[string]map[string][]*target.Target {
@@ -125,7 +127,11 @@ func c09Child(args []string) int {
 		os.Stdout.WriteString("NACK " + strings.ReplaceAll(err.Error(), "\n", " ") + "\n")
 		return 0
 	}
-	os.Stdout.WriteString("ACK\n")
+	idle := "nil"
+	if ia := tm.TargetsInfo().IdleAt; ia != nil {
+		idle = ia.UTC().Format(time.RFC3339Nano)
+	}
+	os.Stdout.WriteString("ACK\nIDLE " + idle + "\n")
 	return 0
 }
 
@@ -209,7 +215,7 @@ func init() {
 				}
 			}
 		} else {
-			pairs = []pair{{"b-one", "b2-one-relabelled"}, {"a-empty", "b-one"}, {"b-one", "c-two-jobs"}, {"c-two-jobs", "a-empty"}, {"b-one", "d-escapes"}, {"d-escapes", "e-states"}, {"a-empty", "g-empty-jobs"}, {"e-states", "f-other-one"}, {"b-one", "h-large"}}
+			pairs = []pair{{"b-one", "b2-one-relabelled"}, {"b-one", "a-empty"}, {"a-empty", "b-one"}, {"b-one", "c-two-jobs"}, {"c-two-jobs", "a-empty"}, {"b-one", "d-escapes"}, {"d-escapes", "e-states"}, {"a-empty", "g-empty-jobs"}, {"e-states", "f-other-one"}, {"b-one", "h-large"}}
 		}
 		var idx int64 = -1
 		for _, pr := range pairs {
@@ -270,6 +276,20 @@ func init() {
 						}
 						r.Violate("C09:neither:"+kind+":"+which+":"+shape, "previous-or-new", fmt.Sprintf("%s -> %s, fault %v: the %s resumes neither the previous nor the new assignment (%d targets)", pr.prev, pr.next, fault, which, l.N), idx, rp)
 						continue
+					}
+					// idle-since: exactly what the process that acknowledged the update reported
+					if acked && isNext {
+						if i := strings.Index(out, "IDLE "); i >= 0 {
+							want := strings.TrimSpace(strings.SplitN(out[i+5:], "\n", 2)[0])
+							got := "nil"
+							if l.IdleAt != nil {
+								got = l.IdleAt.UTC().Format(time.RFC3339Nano)
+							}
+							if want != got {
+								rp.Clause = "idle-since"
+								r.Violate("C09:idle-since-not-resumed:"+kind, "idle-since", fmt.Sprintf("%s -> %s, fault %v: the sidecar reported idle since %s when it acknowledged, the %s resumes %s", pr.prev, pr.next, fault, want, which, got), idx, rp)
+							}
+						}
 					}
 					// idle-since: set iff the resumed assignment is empty; kept when it was empty before
 					empty := l.N == 0
